@@ -27,8 +27,19 @@ let run which l =
     String.concat "|" (List.map (fun (ts, ok) -> String.concat " " (List.map show_tok ts) ^ (if ok then " ok" else " FUEL")) res)
   | _ -> failwith "program"
 
+(* stringify: hex of the argument text -> hex of the string literal *)
+let rec pos_of_int n = if n = 1 then XH else if n land 1 = 0 then XO (pos_of_int (n lsr 1)) else XI (pos_of_int (n lsr 1))
+let n_of_int n = if n = 0 then N0 else Npos (pos_of_int n)
+let rec int_of_pos = function XH -> 1 | XO p -> 2 * int_of_pos p | XI p -> 2 * int_of_pos p + 1
+let int_of_n = function N0 -> 0 | Npos p -> int_of_pos p
+let hexd c = if c >= '0' && c <= '9' then Char.code c - 48 else Char.code c - 87
+let stringify_line fixed l =
+  let bytes = List.init (String.length l / 2) (fun i -> n_of_int (hexd l.[2*i] * 16 + hexd l.[2*i+1])) in
+  String.concat "" (List.map (fun c -> Printf.sprintf "%02x" (int_of_n c)) (stringify fixed bytes))
+
 let () =
   match Sys.argv.(1) with
+  | "stringify" -> (try while true do let l = input_line stdin in print_string (stringify_line true l); print_newline () done with End_of_file -> ())
   | "impl" -> each_line (run true)
   | "spec" -> each_line (run false)
   | m -> failwith ("mode " ^ m)
